@@ -2,18 +2,218 @@
 
 The data mask (which bits of the consumed input belong to a field) comes from the independent reference parser
 (refimpl), not from the library or the model.  Inputs are unbiased random bytes: padding is *not* zero in the input.
+
+Added probe families (s1):
+  * LEB128 boundary inputs: standalone uleb128/ileb128 on every canonical 1- and 2-byte encoding and on longer encodings
+    over the boundary groups 0x00/0x01/0x3f/0x40/0x41/0x7e/0x7f (s1_leb.encodings); inside generated structures the LEB128
+    members of the input are rewritten to such encodings (s1_leb.splice_boundary).  Whether an input is canonical (minimal)
+    is decided by an independent rule, no longer by a first dump through the library.
+  * endianness histories: ONE cstruct instance lives through epochs (parse-then-dump, `cs.endian` switched, parse-then-dump,
+    both orders, sometimes back); byte fidelity is evaluated in every epoch with the mask for the current byte order, for
+    structures and for standalone scalar / enum / array types (s1_hist).
 """
 from __future__ import annotations
 
 import itertools
 
-from .. import defs, impl, refimpl
+from .. import defs, impl, refimpl, s1_hist, s1_leb
 from ..common import Result, mkrng
-from ..structprops import Engine, load, real_parse, rand_bytes, has_eof, has, has_float
+from ..structprops import Engine, load, real_parse, rand_bytes, has_eof, has, has_float, union_anon_nested
 
 
 def has_leb(t):
     return has(t, lambda x, d, u: x[0] == "sc" and x[1] in ("uleb128", "ileb128"))
+
+
+def pending(res, tree) -> bool:
+    """definitions in the territory of a pending finding are not evaluated"""
+    if union_anon_nested(tree):
+        if False:  # PENDING-FINDING: union of anonymous structures with a nested anonymous member loses that member's fields on dump
+            return False  # (see structprops.union_anon_nested for the reproduction)
+        res.feat("skipped definition (pending finding: nested anonymous member in an all-anonymous union)")
+        return True
+    return False
+
+
+def fidelity(eng, res, L, tree, cfg, data, sigs, *, key, rnd, model=True):
+    """the property's predicate on one input: parse, dump, compare with the input under the reference parser's data mask.
+    Inputs whose LEB128 members are not minimal (independent rule) are made canonical by one dump through the library,
+    their non-data bits re-randomised (the original path); canonical ones are used as they are.  -> parsed object or None"""
+    T = L.T
+    want, obj = real_parse(T, data)
+    if want[0] != "ok" or impl.contains_nan(want[1]):
+        res.feat("input-rejected-or-NaN")
+        return None
+    try:
+        rv, rend, rmask, spans = s1_leb.parse_spans(tree, data, 0, cfg)
+    except (refimpl.Short, refimpl.Bad):
+        eng.report("the library parses an input the reference parser rejects", eng.case_data(L, data=data), sigs)
+        return None
+    if spans and s1_leb.canonical_input(spans, data):
+        res.feat("leb-canonical-input (independent rule)")
+        for a, b, sg in spans:
+            if data[b - 1] in (0x3F, 0x40, 0x41, 0x7F, 0x00, 0x7E):
+                res.feat("leb-boundary-final-group")
+    elif spans:
+        d0 = impl.dump(T, obj)
+        if d0[0] != "ok":
+            return None
+        # canonical encodings, then random garbage in every non-data bit
+        try:
+            _, e0, m0 = refimpl.parse(tree, d0[1], 0, cfg)
+        except (refimpl.Short, refimpl.Bad):
+            return None
+        data = bytes((b & m) | (rnd.randrange(256) & ~m & 0xFF) for b, m in zip(d0[1], m0)) + b"\x00" * 4
+        if has_eof(tree):
+            data = data[:-4]
+        want, obj = real_parse(T, data)
+        if want[0] != "ok":
+            return None
+        try:
+            rv, rend, rmask = refimpl.parse(tree, data, 0, cfg)
+        except (refimpl.Short, refimpl.Bad):
+            return None
+        res.feat("leb-canonicalised-input")
+    consumed = want[2]
+    res.count((*key, data[:consumed]), consumed >= 2 and len(tree[1]) >= 2)
+    cd = eng.case_data(L, data=data)
+    if rend != consumed:
+        eng.report(f"parsing consumed {consumed} bytes, the reference says the value occupies {rend}", cd, sigs)
+        return obj
+    d = impl.dump(T, obj)
+    if d[0] != "ok":
+        eng.report(f"a parsed value cannot be dumped: {d[1]}", cd, sigs)
+        return obj
+    padded = data[:consumed] + bytes(max(0, consumed - len(data)))
+    exp = bytes(b & m for b, m in zip(padded, rmask))
+    if len(d[1]) != consumed:
+        eng.report(f"dumps produced {len(d[1])} bytes, parsing consumed {consumed}", cd, sigs)
+    elif d[1] != exp:
+        diff = [i for i in range(consumed) if d[1][i] != exp[i]]
+        eng.report(f"dumps differs from the input at data-carrying / must-be-zero positions {diff[:12]}: dumps {d[1].hex()} expected {exp.hex()}", cd, sigs)
+    if any(m not in (0, 0xFF) for m in rmask):
+        res.feat("partial-byte-mask (bit-fields)")
+    if any(m == 0 for m in rmask):
+        res.feat("padding-bytes-present")
+    if model and "F23" not in sigs:
+        eng.model_write(L, want[1], d, "dumps of a parsed value", sigs)
+    return obj
+
+
+def leb_scalars(eng, res, tier):
+    """standalone uleb128 / ileb128: dumping the value parsed from a canonical encoding reproduces the encoding"""
+    m = impl.dc()
+    for endian in "<>":
+        cs = m.cstruct(endian=endian)
+        for tname, signed in (("uleb128", False), ("ileb128", True)):
+            t = cs.resolve(tname)
+            for enc in s1_leb.encodings(signed, tier):
+                data = enc + b"\xAA\xBB"
+                r = impl.parse(t, data)
+                res.count(("leb-scalar", tname, endian, enc), len(enc) >= 2)
+                res.feat(f"leb-scalar:{tname}:{min(len(enc), 5)}{'+' if len(enc) >= 5 else ''}-byte")
+                cd = {"type": tname, "endian": endian, "data": data.hex(), "value": s1_leb.decode(enc, signed),
+                      "repro": f"from dissect.cstruct import cstruct; cs=cstruct(endian={endian!r}); v=cs.{tname}(bytes.fromhex({data.hex()!r})); v.dumps()"}
+                if r[0] != "ok" or r[2] != len(enc) or int(r[1]) != s1_leb.decode(enc, signed):
+                    eng.report(f"{tname}: canonical encoding {enc.hex()} of {s1_leb.decode(enc, signed)} parses as {r[1:] if r[0] == 'ok' else r}", cd, [])
+                    continue
+                d = impl.dump(t, r[1])
+                if d[0] != "ok" or d[1] != enc:
+                    eng.report(f"{tname}: parsing consumed {len(enc)} bytes ({enc.hex()}, value {int(r[1])}) but dumping gives "
+                               f"{d[1].hex() if d[0] == 'ok' else d} ({len(d[1]) if d[0] == 'ok' else '-'} bytes)", cd, [])
+
+
+def leb_tree(rnd):
+    """a generated definition with at least one LEB128 member: drawn until one occurs, else one is inserted"""
+    for _ in range(6):
+        g = defs.Gen(rnd, max_depth=rnd.choice([1, 2, 2]))
+        tree = g.struct()
+        if has_leb(tree):
+            return tree
+    fields = list(tree[1])
+    for _ in range(rnd.choice([1, 2])):
+        ty = ("sc", rnd.choice(["uleb128", "ileb128", "ileb128"]))
+        r = rnd.random()
+        if r < 0.2:
+            ty = ("arr", ty, ("fixed", rnd.choice([1, 2, 3])))
+        elif r < 0.3:
+            ty = ("arr", ty, ("null",))
+        elif r < 0.4:
+            ty = ("struct", [{"name": g.name(), "ty": ("sc", "uint8"), "bits": None}, {"name": g.name(), "ty": ty, "bits": None},
+                             {"name": g.name(), "ty": ("sc", "uint16"), "bits": None}])
+        pos = rnd.randint(0, len(fields))
+        if fields and fields[-1]["ty"][0] == "arr" and fields[-1]["ty"][2][0] == "eof":
+            pos = rnd.randint(0, len(fields) - 1)
+        fields.insert(pos, {"name": g.name(), "ty": ty, "bits": None})
+    return ("struct", fields)
+
+
+def leb_structures(eng, res, rnd, tier):
+    """structures with LEB128 members, the members of the input rewritten to boundary encodings"""
+    for _ in range(160 if tier == "quick" else 5000):
+        tree = leb_tree(rnd)
+        if pending(res, tree):
+            continue
+        for endian, align, compiled in itertools.product("<>", (False, True), (False, True)):
+            if rnd.random() < 0.6:
+                continue
+            L, err = load(tree, endian=endian, align=align, compiled=compiled, pointer=rnd.choice(["uint64", "uint32", "uint16"]))
+            if L is None:
+                continue
+            cfg = refimpl.Cfg(endian, align, L.pointer, impl.CONSTS)
+            sigs = eng.sigs(L)
+            for _i in range(3):
+                base = bytes(rnd.randrange(256) for _ in range(64)) if rnd.random() < 0.5 else rand_bytes(rnd, 64)
+                data = s1_leb.splice_boundary(rnd, tree, base, cfg)
+                res.feat("leb-structure:inputs")
+                fidelity(eng, res, L, tree, cfg, data, sigs, key=("leb", L.text, endian, align, compiled), rnd=rnd)
+        if len(eng.lines) > 4000:
+            eng.flush()
+
+
+def endian_histories(eng, res, rnd, tier):
+    """endianness histories on one instance: structures, then standalone scalar / enum / array types"""
+    for _ in range(150 if tier == "quick" else 4000):
+        tree = defs.Gen(rnd, max_depth=rnd.choice([1, 2, 2, 3])).struct()
+        if pending(res, tree):
+            continue
+        align, compiled = rnd.random() < 0.5, rnd.random() < 0.5
+        ptr = rnd.choice(["uint64", "uint32", "uint16"])
+        sigs = []
+
+        def on_parse(L, data, i):
+            if not sigs:
+                sigs.extend(eng.sigs(L) + ["-"])
+            cfg = refimpl.Cfg(L.endian, align, ptr, impl.CONSTS)
+            res.feat("history:endian:parse-dump" + (":after-switch" if i else ":first-epoch"))
+            return fidelity(eng, res, L, tree, cfg, data, sigs, key=("hist", L.text, L.endian, i, align, compiled), rnd=rnd, model=i > 0)
+
+        def data_for(L, size):
+            n = size + rnd.choice([0, 6, 17])
+            return bytes(rnd.randrange(256) for _ in range(n)) if rnd.random() < 0.7 else rand_bytes(rnd, n)
+
+        if s1_hist.endian_history(rnd, tree, align=align, compiled=compiled, ptr=ptr, on_parse=on_parse, data_for=data_for) is not None:
+            res.feat("history:endian:instances")
+        if len(eng.lines) > 4000:
+            eng.flush()
+
+    def on_value(sess, t, text, data, i, e):
+        r = impl.parse(t, data)
+        if r[0] != "ok" or impl.contains_nan(impl.canon(r[1])):
+            res.feat("input-rejected-or-NaN")
+            return
+        res.count(("hist-scalar", text, e, i, data[: r[2]]), r[2] >= 2)
+        res.feat("history:endian:standalone-type" + (":after-switch" if i else ":first-epoch"))
+        cd = {"history": list(sess.steps), "type": text, "data": data.hex(), "endian": e,
+              "repro": sess.script([f"t = {text}; d = bytes.fromhex({data.hex()!r}); assert t.dumps(t(d)) == d[:len(t)]"])}
+        sess.note(f"t = {text}; t.dumps(t(bytes.fromhex({data.hex()!r})))   # under cs.endian = {e!r}")
+        d = impl.dump(t, r[1])
+        # a scalar, enum or array of them has no padding: every consumed byte carries data
+        if d[0] != "ok" or d[1] != data[: r[2]]:
+            eng.report(f"{text}: parsing consumed {data[: r[2]].hex()}, dumping the parsed value gives {d[1].hex() if d[0] == 'ok' else d}", cd, [])
+
+    for _ in range(25 if tier == "quick" else 600):
+        s1_hist.scalar_history(rnd, on_value=on_value)
 
 
 def run(env) -> Result:
@@ -21,13 +221,17 @@ def run(env) -> Result:
     res.rule = ("seeded random definition trees x {<,>} x {packed, aligned} x {interpreted, compiled}; inputs: uniformly random bytes (padding "
                 "and unassigned bit-field bits are random, not zero); for definitions with LEB128 members the input is first made canonical by "
                 "one dump and its non-data bits are then re-randomised. Predicate: len(dumps(parse(x))) == consumed and dumps == x & mask with "
-                "the mask from the independent reference parser. distinct = (definition, config, input); non-trivial = consumed >= 2 bytes and "
-                ">= 2 fields")
+                "the mask from the independent reference parser. Plus: standalone LEB128 types on all canonical 1/2-byte and boundary 3+-byte "
+                "encodings; structures whose LEB128 members are rewritten to boundary encodings (canonical by an independent rule); "
+                "histories on one instance (parse-dump, cs.endian switched, parse-dump) for structures and standalone types. "
+                "distinct = (definition, config, input); non-trivial = consumed >= 2 bytes and >= 2 fields")
     eng = Engine(env, res, "C02")
     rnd = mkrng(env["seed"], "c02")
     tier = env["tier"]
     for _ in range(300 if tier == "quick" else 12000):
         tree = defs.Gen(rnd, max_depth=rnd.choice([1, 2, 2, 3])).struct()
+        if pending(res, tree):
+            continue
         for endian, align, compiled in itertools.product("<>", (False, True), (False, True)):
             if rnd.random() < (0.6 if tier == "quick" else 0.3):
                 continue
@@ -40,62 +244,14 @@ def run(env) -> Result:
             size = T.size if T.size is not None else 56
             for _i in range(3):
                 data = bytes(rnd.randrange(256) for _ in range(size + rnd.choice([0, 6, 17]))) if rnd.random() < 0.7 else rand_bytes(rnd, size + 9)
-                want, obj = real_parse(T, data)
-                if want[0] != "ok" or impl.contains_nan(want[1]):
-                    res.feat("input-rejected-or-NaN")
-                    continue
-                try:
-                    rv, rend, rmask = refimpl.parse(tree, data, 0, cfg)
-                except (refimpl.Short, refimpl.Bad):
-                    eng.report("the library parses an input the reference parser rejects", eng.case_data(L, data=data), sigs)
-                    continue
-                if has_leb(tree):
-                    d0 = impl.dump(T, obj)
-                    if d0[0] != "ok":
-                        continue
-                    # canonical encodings, then random garbage in every non-data bit
-                    try:
-                        _, e0, m0 = refimpl.parse(tree, d0[1], 0, cfg)
-                    except (refimpl.Short, refimpl.Bad):
-                        continue
-                    data = bytes((b & m) | (rnd.randrange(256) & ~m & 0xFF) for b, m in zip(d0[1], m0)) + b"\x00" * 4
-                    if has_eof(tree):
-                        data = data[:-4]
-                    want, obj = real_parse(T, data)
-                    if want[0] != "ok":
-                        continue
-                    try:
-                        rv, rend, rmask = refimpl.parse(tree, data, 0, cfg)
-                    except (refimpl.Short, refimpl.Bad):
-                        continue
-                    res.feat("leb-canonicalised-input")
-                consumed = want[2]
-                res.count((L.text, endian, align, compiled, data[:consumed]), consumed >= 2 and len(tree[1]) >= 2)
-                for k, v in defs.features(tree).items():
-                    res.feat(k, v)
-                cd = eng.case_data(L, data=data)
-                if rend != consumed:
-                    eng.report(f"parsing consumed {consumed} bytes, the reference says the value occupies {rend}", cd, sigs)
-                    continue
-                d = impl.dump(T, obj)
-                if d[0] != "ok":
-                    eng.report(f"a parsed value cannot be dumped: {d[1]}", cd, sigs)
-                    continue
-                padded = data[:consumed] + bytes(max(0, consumed - len(data)))
-                exp = bytes(b & m for b, m in zip(padded, rmask))
-                if len(d[1]) != consumed:
-                    eng.report(f"dumps produced {len(d[1])} bytes, parsing consumed {consumed}", cd, sigs)
-                elif d[1] != exp:
-                    diff = [i for i in range(consumed) if d[1][i] != exp[i]]
-                    eng.report(f"dumps differs from the input at data-carrying / must-be-zero positions {diff[:12]}: dumps {d[1].hex()} expected {exp.hex()}", cd, sigs)
-                if any(m not in (0, 0xFF) for m in rmask):
-                    res.feat("partial-byte-mask (bit-fields)")
-                if any(m == 0 for m in rmask):
-                    res.feat("padding-bytes-present")
-                if "F23" not in sigs:
-                    eng.model_write(L, want[1], d, "dumps of a parsed value", sigs)
+                fidelity(eng, res, L, tree, cfg, data, sigs, key=(L.text, endian, align, compiled), rnd=rnd)
+            for k, v in defs.features(tree).items():
+                res.feat(k, v)
         if len(eng.lines) > 4000:
             eng.flush()
+    leb_scalars(eng, res, tier)
+    leb_structures(eng, res, mkrng(env["seed"], "c02-leb"), tier)
+    endian_histories(eng, res, mkrng(env["seed"], "c02-endian-history"), tier)
     eng.flush()
     return res
 
